@@ -220,6 +220,11 @@ func (m *Machine) ProcessPacket(out, packet []byte) ([]byte, *Result, error) {
 		return nil, nil, ErrInitiateNotCalled
 	}
 
+	// Remember the handshake hash so that a failed ReadMessage can be classified
+	// below. ChannelBinding returns noise's internal slice, which MixHash rewrites
+	// in place, so it is copied (constant capacity, stays on the stack).
+	hashBefore := append(make([]byte, 0, 64), m.hs.ChannelBinding()...)
+
 	// The (eKey, dKey) ordering here is correct for IX, where the initiator
 	// completes the handshake by reading the responder's stage-2 message.
 	// noise returns (cs1, cs2) where cs1 is the initiator->responder cipher.
@@ -228,8 +233,15 @@ func (m *Machine) ProcessPacket(out, packet []byte) ([]byte, *Result, error) {
 	msg, eKey, dKey, err := m.hs.ReadMessage(nil, packet[header.Len:])
 	if err != nil {
 		// Noise ReadMessage failed. The noise library checkpoints and rolls back
-		// on failure, so the Machine is still alive. The caller can retry with
-		// a different packet.
+		// when an AEAD check fails, so the Machine is still alive and the caller
+		// can retry with a different packet. It returns without rolling back when
+		// the message ends after a token it has already mixed in (ErrShortMessage)
+		// or when a DH operation rejects a public key. The handshake hash has then
+		// advanced, no later packet can complete this handshake, and the Machine
+		// must not claim to be usable.
+		if !bytes.Equal(hashBefore, m.hs.ChannelBinding()) {
+			m.failed = true
+		}
 		return nil, nil, fmt.Errorf("noise ReadMessage: %w", err)
 	}
 
